@@ -28,3 +28,26 @@ package fasthttp
 //@   end
 //@   ensures[mismatch-is-an-error] wrote != size ==> err != nil
 //@   ensures[at-most-declared] wrote <= size
+
+// writeBodyChunked, generic reader path: every Read that yields bytes is followed by a chunk carrying exactly those
+// bytes before the next Read or the terminating chunk -- also when the reader hands out its last bytes together
+// with io.EOF.
+//@ func writeBodyChunked results err
+//@   property C03 C34
+//@   mode skeleton
+//@   ghost pending int = 0
+//@   ghost terminated int = 0
+//@   on call io.Reader.Read(_, p) -> n, e:
+//@     requires[previous-bytes-written] pending == 0
+//@     effect pending = n
+//@     ensures n >= 0 && n <= len(p)
+//@   on call writeChunk#2(_, b) -> e:
+//@     requires[terminator-after-all-bytes] len(b) == 0 && pending == 0
+//@     effect terminated = terminated + 1
+//@   on call writeChunk#3(_, b) -> e:
+//@     requires[chunk-is-what-was-read] len(b) == pending
+//@     effect pending = 0
+//@   end
+//@   loop 1:
+//@     invariant[nothing-pending] pending == 0
+//@   ensures[all-read-bytes-written] err == nil ==> pending == 0
